@@ -17,7 +17,7 @@ func baseIfaceName(t types.Type) (string, bool) {
 	if !ok || n.Obj().Pkg() == nil || n.Obj().Pkg().Path() != modPath {
 		return "", false
 	}
-	switch n.Obj().Name() {
+	switch nm(n.Obj()) {
 	case "VFS", "VFSBase", "IOFS", "File":
 		if _, isIface := n.Underlying().(*types.Interface); isIface {
 			return n.Obj().Name(), true
